@@ -331,7 +331,7 @@ Section FanProofs.
     - unfold fan_out, nack_if_not_broadcast.
       destruct (q_cc q =? GET_COMMAND).
       + destruct (is_broadcast (q_dst q)); eauto.
-      + destruct devs as [|p rest] eqn:Ed; [eauto|]. rewrite <- Ed in *.
+      + destruct devs as [|p rest] eqn:Ed; [unfold nack_if_not_broadcast; destruct (is_broadcast (q_dst q)); eauto|]. rewrite <- Ed in *.
         destruct (fan_loop_once q devs (mkTr (u16 (len devs)) 0 (RDM_COMPLETED_OK, None) true) st)
           as (st' & first & _ & _ & E); auto.
         * rewrite Ed; discriminate.
